@@ -420,7 +420,8 @@ Record facts := mk_facts {
   f_slot_inner : list (list bool);  (* live slot k holds inner result component c after the call *)
   f_slot_arg : list (list bool);    (* live slot k holds argument i after the call *)
   f_slot_written : list bool;       (* the object slot k referred to BEFORE the call was written in place *)
-  f_inner_written : list bool       (* inner result component c was written in place *)
+  f_inner_written : list bool;      (* inner result component c was written in place *)
+  f_arg_written : list bool         (* argument i was written in place *)
 }.
 
 Definition call_facts (p : prog) (nargs nslots ndead : nat) : facts :=
@@ -441,7 +442,8 @@ Definition call_facts (p : prog) (nargs nslots ndead : nat) : facts :=
     (map (fun l => map (is_inner l) inner) (s_slots s))
     (map (fun l => map (Nat.eqb l) args) (s_slots s))
     (map (fun l => existsb (Nat.eqb l) ws) slots0)
-    (map (fun o => match o with Some l => existsb (Nat.eqb l) ws | None => false end) inner).
+    (map (fun o => match o with Some l => existsb (Nat.eqb l) ws | None => false end) inner)
+    (map (fun a => existsb (Nat.eqb a) ws) args).
 
 (* Dict observations through VecTransposeImage are deep-copied before the image keys are transposed *)
 Definition transpose_dict_reset : prog := inner_reset ++ [ INew 0 20 [RTmp 10]; IRet (RTmp 0) ].
@@ -471,3 +473,44 @@ Definition her_add_pinned : prog :=
   buffer_add ++ [ IStore 5 (RArg 5); IStore 6 (RArg 6) ].
 
 Definition her_components_disciplined : bool := disciplined 7 7 her_add && disciplined 0 7 her_sample.
+
+(* ---------- more library operations (tied by per-call facts in harness/c19.py) ---------- *)
+(* VecNormalize.normalize_obs / normalize_reward / unnormalize_* called by the USER on an array of their own (arg 0):
+   the result is a new array computed from the argument and the running statistics (slots 3, 4), nothing is retained *)
+Definition vecnorm_normalize_call : prog := [ INew 0 34 [RArg 0; RSlot 3]; IRet (RTmp 0) ].
+Definition vecnorm_normalize_reward_call : prog := [ INew 0 35 [RArg 0; RSlot 4]; IRet (RTmp 0) ].
+
+(* predict(obs) for a Dict observation: obs_to_tensor deep-copies the dict, then reshapes / transposes the COPY in place *)
+Definition predict_dict_prog : prog :=
+  [ INew 0 36 [RArg 0]; IWrite (RTmp 0) 37 []; INew 1 31 [RTmp 0; RSlot 0]; IRet (RTmp 1) ].
+(* without the copy (seeded changes C11_4 / C19_4): the reshape is applied to the caller's dict itself *)
+Definition predict_dict_nocopy : prog :=
+  [ IWrite (RArg 0) 37 []; INew 1 31 [RArg 0; RSlot 0]; IRet (RTmp 1) ].
+
+(* RolloutBuffer: live slots 0 observations 1 actions 2 rewards 3 episode_starts 4 values 5 log_probs (+ 6 advantages 7 returns).
+   add(obs, action, reward, episode_start, value, log_prob) copies the six arguments into the arrays in place;
+   compute_returns_and_advantage(last_values, dones) writes advantages in place from rewards, values, starts and rebinds returns;
+   get() returns fresh tensors for every field; reset() REBINDS every slot to a newly allocated array *)
+Definition rollout_add : prog :=
+  [ INew 0 25 [RArg 0]; IWrite (RSlot 0) 26 [RTmp 0]; INew 1 25 [RArg 1]; IWrite (RSlot 1) 26 [RTmp 1];
+    INew 2 25 [RArg 2]; IWrite (RSlot 2) 26 [RTmp 2]; INew 3 25 [RArg 3]; IWrite (RSlot 3) 26 [RTmp 3];
+    INew 4 25 [RArg 4]; IWrite (RSlot 4) 26 [RTmp 4]; INew 5 25 [RArg 5]; IWrite (RSlot 5) 26 [RTmp 5] ].
+Definition rollout_compute : prog :=
+  [ INew 0 25 [RArg 0]; INew 1 25 [RArg 1];
+    IWrite (RSlot 6) 38 [RSlot 2; RSlot 3; RSlot 4; RTmp 0; RTmp 1];
+    (* `self.returns = self.advantages + self.values` creates a new array and rebinds the attribute *)
+    INew 7 39 [RSlot 6; RSlot 4]; IStore 7 (RTmp 7) ].
+Definition rollout_get : prog :=
+  (* the first get() of a rollout flattens the six sampled arrays: each slot is rebound to a new (swapped and reshaped) array *)
+  [ INew 10 40 [RSlot 0]; IStore 0 (RTmp 10); INew 11 40 [RSlot 1]; IStore 1 (RTmp 11); INew 14 40 [RSlot 4]; IStore 4 (RTmp 14);
+    INew 15 40 [RSlot 5]; IStore 5 (RTmp 15); INew 16 40 [RSlot 6]; IStore 6 (RTmp 16); INew 17 40 [RSlot 7]; IStore 7 (RTmp 17);
+    INew 0 27 [RSlot 0]; INew 1 27 [RSlot 1]; INew 2 27 [RSlot 4]; INew 3 27 [RSlot 5]; INew 4 27 [RSlot 6]; INew 5 27 [RSlot 7];
+    IRet (RTmp 0); IRet (RTmp 1); IRet (RTmp 2); IRet (RTmp 3); IRet (RTmp 4); IRet (RTmp 5) ].
+Definition rollout_reset : prog :=
+  [ INew 0 14 []; IStore 0 (RTmp 0); INew 1 14 []; IStore 1 (RTmp 1); INew 2 14 []; IStore 2 (RTmp 2); INew 3 14 []; IStore 3 (RTmp 3);
+    INew 4 14 []; IStore 4 (RTmp 4); INew 5 14 []; IStore 5 (RTmp 5); INew 6 14 []; IStore 6 (RTmp 6); INew 7 14 []; IStore 7 (RTmp 7) ].
+
+Definition extra_components_disciplined : bool :=
+  disciplined 1 5 vecnorm_normalize_call && disciplined 1 5 vecnorm_normalize_reward_call &&
+  disciplined 1 1 predict_dict_prog &&
+  disciplined 6 8 rollout_add && disciplined 2 8 rollout_compute && disciplined 0 8 rollout_get && disciplined 0 8 rollout_reset.
